@@ -266,6 +266,7 @@ var uniqueFieldsTable = map[string]string{
 	"PeerPoolItem.PeerPubkey":                    "PeerPoolMap is keyed by the item's PeerPubkey (checked: every insertion uses that key)",
 	"Peer.PeerPubkey":                            "header_sync ConsensusPeers.PeerMap is keyed by the peer's PeerPubkey (checked: every insertion uses that key)",
 	"PeerPoolItemForVm.PeerAddress.ToHexString()": "the address is derived from the peer's public key (the map key) by hashing: injective up to hash collisions",
+	"VBFTPeerStakeInfo.PeerPubkey":               "copied in vbft.GetPeersConfig from PeerPoolItem.PeerPubkey, the key of the peer-pool map (checked by C30: the loop fills the field from the range value's PeerPubkey)",
 	"PeerConfig.ID":                              "vbft peer id = the peer's public key, the key of the peer pool map the list is built from",
 	"PeerStakeInfo.Index":                        "governance assigns each peer a distinct index",
 }
